@@ -70,6 +70,7 @@ GROUPS["fea-rs"] = {
         "fea-rs/src/parse/lexer.rs": "harness/fea-rs/lexer.rs",
     },
 }
+
 GROUPS["fontir-wide"] = {
     "package": "fontir",
     "t1_crates": ["fontdrasil", "fontir"],
@@ -177,6 +178,78 @@ for _a, _b in [(1, 1), (1, 2), (2, 1), (2, 2), (0, 1), (2, 0)]:
       funcs=[F + "::Rank::{bitor,bitor_assign,eq,is_all_zeros,first_bit_is_set,right_shift_one}"],
       bound="rank word counts %d and %d concrete, all bits symbolic" % (_a, _b), oracle="agrees with u128 arithmetic")
 H("c16_rank_new_is_single_bit", "C16", "fontir", "feature_variations", funcs=[F + "::Rank::new"], bound="rule index 0..127", oracle="value == 1 << i")
+
+G = "fontbe/src/glyphs.rs"
+M = "fontbe/src/metrics_and_limits.rs"
+H("c19_component_offset_fits_or_errs", ["C19", "C03"], "fontbe", "glyphs", flags=CHECKED_FLAGS, funcs=[G + "::create_component_ref_gid"],
+  bound="offsets e,f any finite f64 with |x| < 1e9", oracle="Err, or stored offset == floor(x+0.5) exactly (never clamped)")
+H("c19_component_2x2_within_f2dot14", "C19", "fontbe", "glyphs", flags=CHECKED_FLAGS, funcs=[G + "::create_component_ref_gid"],
+  bound="scale a any f64 in [-2,2] (the range fontir's decomposition guard lets through)", oracle="stored 2.14 value within half a step, +2.0 stored as the largest 2.14 value")
+H("c19_composite_delta_not_clamped", ["C19", "C03"], "fontbe", "glyphs", flags=CHECKED_FLAGS, funcs=[G + "::process_composite_deltas"],
+  bound="one delta, dx,dy any f64 inside the i16 range", oracle="stored delta within 0.5 of the input; optional <=> rounds to (0,0)")
+H("c19_composite_delta_beyond_i16", "C19", "fontbe", "glyphs", flags=CHECKED_FLAGS, funcs=[G + "::process_composite_deltas"],
+  bound="dx any finite f64 beyond the i16 range (|x| < 1e9)", oracle="stored delta within 0.5 of the input (known finding: it saturates)")
+H("c19_os2_apply_metrics", "C19", "fontbe", "os2", flags=CHECKED_FLAGS, funcs=["fontbe/src/os2.rs::apply_metrics"],
+  bound="17 metrics, any f64 inside the range of their i16/u16 field", oracle="each OS/2 field == floor(own metric + 0.5)")
+H("c19_width_class_total", "C19", "fontdrasil", "types", flags=CHECKED_FLAGS, funcs=["fontdrasil/src/types.rs::WidthClass::try_from"],
+  bound="every u16", oracle="Ok iff 1..=9 with the value preserved; no panic (overflow checks on)")
+I2 = "fontir/src/ir.rs"
+H("c19_2x2_overflow_guard", "C19", "fontir-wide", "ir", funcs=[I2 + "::has_overflowing_2x2_transforms"],
+  bound="one master, one component, all six affine coefficients any finite f64 with |v| < 1e6", oracle="true iff one of the four 2x2 coefficients lies outside [-2, 2]")
+H("c03_2x2_consistency_guard", "C03", "fontir-wide", "ir", funcs=[I2 + "::has_consistent_2x2_transforms"],
+  bound="two masters with one component each, base equal or different (symbolic), all twelve coefficients any finite f64", oracle="true iff same base and the same four 2x2 coefficients")
+H("c03_2x2_consistency_component_count", "C03", "fontir-wide", "ir", funcs=[I2 + "::has_consistent_2x2_transforms"],
+  bound="two masters with 1 and 2 components", oracle="false")
+H("c19_can_reuse_metrics_beyond_u16", "C19", "fontbe", "glyphs", flags=CHECKED_FLAGS, funcs=[G + "::can_reuse_metrics"],
+  bound="two advances, any finite f64 >= 65535.5", oracle="equal only if the rounded advances are equal (known finding: both saturate to 65535)")
+H("c19_can_reuse_metrics_width_not_clamped", "C19", "fontbe", "glyphs", flags=CHECKED_FLAGS, funcs=[G + "::can_reuse_metrics"],
+  bound="advances any f64 in [0,65535.5), x shift any finite |x|<1e6", oracle="true iff the rounded advances are equal and the x shift rounds to 0")
+H("c17_metrics_builder_3", "C17", "fontbe", "metrics_and_limits", funcs=[M + "::MetricsBuilder::update", M + "::MetricsBuilder::build"],
+  bound="3 glyphs: advance u16, lsb i16, has-contours bool, extent u16 all symbolic", oracle="hmtx reconstruction exact and minimal; advance max, min lsb/rsb, max extent equal a straightforward fold over non-empty glyphs")
+H("c17_metrics_builder_4", "C17", "fontbe", "metrics_and_limits", tier="thorough", funcs=[M + "::MetricsBuilder::update", M + "::MetricsBuilder::build"],
+  bound="4 glyphs, all inputs symbolic", oracle="as c17_metrics_builder_3")
+H("c17_metrics_builder_1", "C17", "fontbe", "metrics_and_limits", funcs=[M + "::MetricsBuilder::update", M + "::MetricsBuilder::build"],
+  bound="1 glyph, all inputs symbolic", oracle="as c17_metrics_builder_3")
+H("c19_metrics_update_no_overflow", ["C19", "C17"], "fontbe", "metrics_and_limits", flags=CHECKED_FLAGS, funcs=[M + "::MetricsBuilder::update"],
+  bound="advance u16, lsb i16 full range, extent 0..65535", oracle="no arithmetic overflow; rsb/extent clamp to i16 as documented")
+
+L = "fea-rs/src/parse/lexer.rs"
+_lexfuncs = [L + "::Lexer::next_token", L + "::Lexer::{whitespace,comment,string,hyphen_or_minus,number,cid,glyph_class_name,eat_ident,ident,path}",
+             L + "::ExpectingPath::transition", "fea-rs/src/parse/lexer/lexeme.rs::Kind::from_keyword"]
+_lexoracle = "every token consumes input; token lengths track the cursor and sum to the window; Eof (empty) only at the end; terminates within N+1 tokens; no panic"
+H("c13_lexer_lossless_ascii_n3", "C13", "fea-rs", "parse::lexer", funcs=_lexfuncs, bound="every window of 3 ASCII bytes (0x00..0x7F), every lexer state (2 flags x 3 path states); unwind 7", oracle=_lexoracle)
+H("c13_lexer_lossless_ascii_n4", "C13", "fea-rs", "parse::lexer", funcs=_lexfuncs, bound="every window of 4 ASCII bytes, every lexer state; unwind 7", oracle=_lexoracle)
+H("c13_lexer_lossless_ascii_n5", "C13", "fea-rs", "parse::lexer", tier="thorough", funcs=_lexfuncs, bound="every window of 5 ASCII bytes, every lexer state; unwind 8", oracle=_lexoracle)
+H("c13_lexer_char_boundaries_2byte", "C13", "fea-rs", "parse::lexer", funcs=_lexfuncs, bound="ASCII byte, one 2-byte char (C2..DF 80..BF), ASCII byte; every lexer state",
+  oracle="as above, and no token boundary falls inside the 2-byte char")
+H("c13_expecting_path_transitions", "C13", "fea-rs", "parse::lexer", funcs=[L + "::ExpectingPath::transition"], bound="3 states x 5 token kinds",
+  oracle="InPath is entered only by `(` directly after `include` (whitespace keeps the armed state)")
+
+A = "fontir/src/ir.rs::AnchorKind::new"
+H("c10_anchor_kind_len3", "C10", "fontir", "ir", mem_gb=12, funcs=[A], bound="every 3-byte name over {_, a, 0, 1, 2}; unwind 8",
+  oracle="independent classification: _NN component marker (0 rejected), __N rejected, _x mark(x), x_N ligature(x,N) (0 rejected), else base(name)")
+for _n in ["c10_group_of_mark_anchor", "c10_group_of_base_anchor", "c10_group_of_ligature_anchor"]:
+    H(_n, "C10", "fontir", "ir", tier="thorough", funcs=[A], bound="group names g of 2 bytes over {a,b}x{a,b,1}", oracle="the anchor built from g carries group name g (so _g, g and g_N meet)")
+for _n, _d in [("c10_rename_entry", "'entry', both mirror signs symbolic"), ("c10_rename_exit", "'exit', both signs symbolic"), ("c10_rename_center", "'center', both signs symbolic"),
+               ("c10_rename_top_y", "'top', y sign symbolic, x not mirrored"), ("c10_rename_mark_bottom_y", "'_bottom', y sign symbolic"),
+               ("c10_rename_topleft_x", "'topleft', x sign symbolic, y not mirrored"), ("c10_rename_topleft_y", "'topleft', y sign symbolic")]:
+    H(_n, "C10", "fontir", "propagate_anchors", funcs=["fontir/src/propagate_anchors.rs::rename_anchor_for_scale"],
+      bound="anchor name " + _d + "; symbolic scale components any finite f64 with |v| < 1e6", oracle="mirrored in y: top<->bottom; in x: left<->right and entry<->exit; otherwise unchanged")
+H("c10_caret_and_cursive_names", "C10", "fontir", "ir", mem_gb=12, funcs=[A], bound="caret_/vcaret_ + one byte of {0,1,2,a}; entry; exit", oracle="caret/vcaret with index (default 1, 0 rejected); entry/exit cursive")
+
+O = "fontdrasil/src/orchestration.rs"
+H("c02_access_check_leaf", "C02", "fontdrasil-c4", "orchestration", funcs=[O + "::Access::check"], bound="I = TestId (A, B, C(0..2)); rule id and probe symbolic",
+  oracle="Specific by equality, Variant by discriminant, None/Unknown nothing, All everything")
+H("c02_access_builder_union_3", "C02", "fontdrasil-c4", "orchestration", funcs=[O + "::AccessBuilder::{add_access,variant,specific_instance,build}", O + "::Access::check", O + "::AccessType::check"],
+  bound="3 additions, each variant/specific symbolic, ids and probe symbolic over TestId; container capacity 4", oracle="check(q) <=> q matches one of the additions")
+H("c02_access_builder_small", "C02", "fontdrasil-c4", "orchestration", funcs=[O + "::AccessBuilder::add_access", O + "::Access::check"],
+  bound="0, 1 and 2 additions", oracle="exactly the union; the first entry survives the upgrade to a Set")
+H("c02_default_write_access", "C02", "fontdrasil-c4", "orchestration", funcs=[O + "::Work::write_access (default)", O + "::Work::read_access (default)"],
+  bound="work id symbolic, also_completes of 0..2 symbolic ids", oracle="write access admits exactly own id + also_completes; default read access admits nothing")
+H("c02_acl_silent_when_admitted", "C02", "fontdrasil-c4", "orchestration", funcs=[O + "::assert_access_one", O + "::assert_access_many"],
+  bound="2-entry read rule, admitted probe", oracle="no panic")
+H("c02_acl_panics_when_not_admitted", "C02", "fontdrasil-c4", "orchestration", funcs=[O + "::assert_access_one"],
+  bound="specific write rule, any other id", oracle="the illegal-write panic is raised (kani::should_panic)")
 
 PROPERTIES = {
     "C02": {"outside": "everything about scheduling: Workload::can_run / is_dep_fulfilled (did not fit CBMC in three attempts: 15-17 GB), handle_success access rewriting, real threads, atomics ordering, "
